@@ -512,10 +512,37 @@ fn p_sdur_fromstr(i: &[u8]) -> Res {
         }
     }
 }
+/// Reference acceptor for the one place RFC 2822 input may contain a comment
+/// (after the zone): from the first `(`, parentheses - minus backslash-quoted
+/// bytes - must balance, with an unbounded depth counter. Returns false when
+/// the comment is never closed.
+fn rfc2822_comment_closed(i: &[u8]) -> bool {
+    let Some(start) = i.iter().position(|&b| b == b'(') else { return true };
+    let mut depth: usize = 0;
+    let mut escape = false;
+    for &b in &i[start..] {
+        if escape {
+            escape = false;
+        } else if b == b'\\' {
+            escape = true;
+        } else if b == b'(' {
+            depth += 1;
+        } else if b == b')' {
+            depth -= 1;
+            if depth == 0 {
+                return true;
+            }
+        }
+    }
+    false
+}
 fn p_rfc2822_zoned(i: &[u8]) -> Res {
     match RP.parse_zoned(i) {
         Err(_) => Res::Err,
         Ok(z) => {
+            if !rfc2822_comment_closed(i) {
+                return Res::Bad("ok-unclosed-comment:Zoned(rfc2822)".into(), format!("{:?} from input with an unclosed comment", z));
+            }
             let ts = z.timestamp();
             if Timestamp::from_nanosecond(ts.as_nanosecond()).ok() != Some(ts) {
                 return Res::Bad(format!("ok-value-denormalised:Zoned{}", f13_of(civil_ns(z.datetime()), ts.as_nanosecond())), format!("{:?}", z));
@@ -538,6 +565,9 @@ fn p_rfc2822_timestamp(i: &[u8]) -> Res {
     match RP.parse_timestamp(i) {
         Err(_) => Res::Err,
         Ok(ts) => {
+            if !rfc2822_comment_closed(i) {
+                return Res::Bad("ok-unclosed-comment:Timestamp(rfc2822)".into(), format!("{:?} from input with an unclosed comment", ts));
+            }
             if Timestamp::from_nanosecond(ts.as_nanosecond()).ok() != Some(ts) || ts < Timestamp::MIN || ts > Timestamp::MAX {
                 return Res::Bad("ok-value-denormalised:Timestamp".into(), format!("second={} subsec={}", ts.as_second(), ts.subsec_nanosecond()));
             }
